@@ -33,7 +33,10 @@ func c02R7(h H) {
 		for _, a := range c.Args {
 			derives(a, func(v ssa.Value) bool {
 				if m, ok := v.(*ssa.MakeClosure); ok && mc == nil {
-					mc = m
+					// the walk callback: func(path, info, err) error — not some other function value on the way
+					if sg := m.Fn.(*ssa.Function).Signature; sg.Params().Len() == 3 && sg.Results().Len() == 1 {
+						mc = m
+					}
 				}
 				return false
 			}, flowOpts{})
@@ -66,7 +69,7 @@ func c02R7(h H) {
 		env := &absEnv{globals: map[string]*aobj{"SkipDir": {name: "filepath.SkipDir variable", typ: types.Typ[types.Int], f: map[string]aval{"": skip}}}, noFork: true, maxSteps: 200000}
 		env.ext = func(callee string, args []aval) (aval, bool) {
 			switch {
-			case strings.HasSuffix(callee, "FileServer).IsHidden"):
+			case strings.HasSuffix(callee, "FileServer).IsHidden"), callee == "callback:hide-test":
 				return abool(c.hidden), true
 			case callee == "invoke:IsDir":
 				return abool(c.isDir), true
@@ -93,33 +96,58 @@ func c02R7(h H) {
 			}
 			return nil, false
 		}
-		var free []aval
-		for _, fv := range cb.FreeVars {
-			name := fv.Name()
-			t := fv.Type()
-			isPtrToVar := false
-			if p, ok := t.(*types.Pointer); ok {
-				// a captured variable: a cell holding the value
-				var inner aval = aunk{"captured " + name}
-				switch {
-				case name == "dirPath":
-					inner = astr("/pub")
-				case strings.Contains(p.Elem().String(), "browse.Config"):
-					inner = aptr{&aobj{name: "browse config", typ: derefType(p.Elem()), f: map[string]aval{}, in: func(o *aobj, path string, t types.Type) aval {
-						if strings.HasSuffix(path, "Root") {
-							return aiface{aptr{&aobj{name: "root fs", typ: types.Typ[types.Int], f: map[string]aval{}}, ""}, types.Typ[types.Int]}
-						}
-						return aunk{"config field " + path}
-					}}, ""}
-				case types.IsInterface(p.Elem()):
-					inner = aiface{aptr{&aobj{name: name, typ: types.Typ[types.Int], f: map[string]aval{}}, ""}, types.Typ[types.Int]}
+		// what the callback captured, built by type: the directory being archived for a string, the browse
+		// configuration (its file system an oracle), fresh objects for interfaces, oracles for function values (a
+		// hide test carried as a method value), structs field by field — whether captured variable by variable
+		// (a closure) or as the receiver of a method value
+		var mkVal func(t types.Type, name string, depth int) aval
+		mkVal = func(t types.Type, name string, depth int) aval {
+			if depth > 3 {
+				return aunk{"captured " + name}
+			}
+			switch u := underlying(t).(type) {
+			case *types.Basic:
+				if u.Info()&types.IsString != 0 {
+					return astr("/pub")
 				}
-				free = append(free, aptr{&aobj{name: "cell " + name, typ: p.Elem(), f: map[string]aval{"": inner}}, ""})
-				isPtrToVar = true
+				return zeroOf(t)
+			case *types.Interface:
+				return aiface{aptr{&aobj{name: name, typ: types.Typ[types.Int], f: map[string]aval{}}, ""}, types.Typ[types.Int]}
+			case *types.Signature:
+				if u.Results().Len() == 1 && u.Results().At(0).Type().String() == "bool" {
+					return acb{"hide-test"}
+				}
+				return aunk{"captured function " + name}
+			case *types.Pointer:
+				o := &aobj{name: name, typ: u.Elem(), f: map[string]aval{}}
+				o.in = func(o *aobj, path string, ft types.Type) aval {
+					leaf := path
+					if i := strings.LastIndex(path, "."); i >= 0 {
+						leaf = path[i+1:]
+					}
+					return mkVal(ft, name+"."+leaf, depth+1)
+				}
+				return aptr{o, ""}
+			case *types.Struct:
+				f := map[string]aval{}
+				for i := 0; i < u.NumFields(); i++ {
+					f[u.Field(i).Name()] = mkVal(u.Field(i).Type(), name+"."+u.Field(i).Name(), depth+1)
+				}
+				return astruct{f}
 			}
-			if !isPtrToVar {
-				free = append(free, aunk{"captured " + name})
+			return aunk{"captured " + name}
+		}
+		var free []aval
+		for i, fv := range cb.FreeVars {
+			_, isCell := mc.Bindings[i].(*ssa.Alloc)
+			if p, ok := fv.Type().(*types.Pointer); ok && isCell {
+				// a captured variable: a cell holding the value
+				cell := &aobj{name: "cell " + fv.Name(), typ: p.Elem(), f: map[string]aval{}}
+				env.store(cell, "", mkVal(p.Elem(), fv.Name(), 0)) // (a struct's fields are stored leaf by leaf)
+				free = append(free, aptr{cell, ""})
+				continue
 			}
+			free = append(free, mkVal(fv.Type(), fv.Name(), 0))
 		}
 		info := aiface{aptr{&aobj{name: "file info", typ: types.Typ[types.Int], f: map[string]aval{}}, ""}, types.Typ[types.Int]}
 		res, und := env.runFunc(afunc{cb, free}, []aval{astr(c.path), info, anil{}})
